@@ -19,6 +19,8 @@ ASSUME = ["TorchAccepts(file) = torch._C.PyTorchFileReader opens it and has a da
 
 def run(ctx):
     cells = tv.generate(ctx, "Formats", open(os.path.join(tlc.SPEC, "Formats.cfg")).read(), "CELL", workers=4, name="gen:Formats:cells")
+    cells.sort(key=lambda c: json.dumps(c, sort_keys=True))
+    ctx.rng.shuffle(cells)      # neighbours in the child's sequence (which re-uses one scratch path) differ in their marker sets
     t = open(os.path.join(tlc.SPEC, "PolyFS.cfg.tmpl")).read()
     r = tlc.run("PolyFS", t.replace("@G@", "TRUE"), workers=2, timeout=300)
     ctx.add_tlc("design:PolyFS", r)
